@@ -640,6 +640,8 @@ type histGen struct {
 	calls  []hcall
 	nlabel int
 	used   map[string]bool
+	// operand of the previous generated instruction
+	lastArg uint32
 	// classes of distances deliberately produced
 	dist map[string]bool
 }
@@ -709,14 +711,19 @@ func (h *histGen) randIns(maxSize int) (hcall, bool) {
 			continue
 		}
 		arg := g.U32()
-		switch g.Intn(5) {
+		switch g.Intn(7) {
 		case 0:
 			arg = 0
 		case 1:
 			arg = 0xFFFFFFFF
 		case 2:
 			arg = 0x00800080
+		case 3:
+			arg &= 0xFF // an address in page zero, a small constant
+		case 4:
+			arg = h.lastArg // the same operand as the previous instruction
 		}
+		h.lastArg = arg
 		switch m.Arg {
 		case aU8, aI8, aFlags:
 			arg &= 0xFF
@@ -757,6 +764,23 @@ func (h *histGen) branch(label string) {
 	h.add(hcall{Op: "ins", M: emByName[branchMethods[h.g.Intn(len(branchMethods))]], S: label})
 }
 
+// idiomFollowUps: what real code does right after loading a register - move the value somewhere else.
+var idiomFollowUps = []string{"TCD", "TCD", "TCD", "TCD", "TCS", "TCS", "TCS", "TAX", "TAX", "TAX", "TAY", "TAY", "TAY", "TCD", "TCS", "TAX", "TAY", "TXA", "TYA", "XBA", "PHA", "PHX", "PHY", "PHD", "PLD", "PHB", "PLB", "PHK", "TXS", "TSX", "TXY", "TYX", "TDC", "TSC", "PHP", "PLP", "CLC", "SEC", "XCE"}
+
+// addIns adds a generated instruction and, after a register load, often one of the usual follow-ups
+// (load-then-transfer idioms such as LDA #0 / TCD, LDX #$1FF / TXS, LDA #$80 / PHA / PLB).
+func (h *histGen) addIns(c hcall) {
+	h.add(c)
+	if c.Op != "ins" || h.o.straight || !strings.HasPrefix(c.M.Name, "LD") || h.g.Intn(2) != 0 {
+		return
+	}
+	for n := 1 + h.g.Intn(2); n > 0; n-- {
+		if m, ok := emByName[idiomFollowUps[h.g.Intn(len(idiomFollowUps))]]; ok && m != nil {
+			h.add(hcall{Op: "ins", M: m})
+		}
+	}
+}
+
 func genHistory(g *vf.Rng, o histOpts) (calls []hcall, base string, dist map[string]bool) {
 	h := &histGen{g: g, o: o, sh: newShadow(o.listing), dist: map[string]bool{}}
 	budget := 1 + g.Intn(o.maxCalls)
@@ -782,7 +806,7 @@ func genHistory(g *vf.Rng, o histOpts) (calls []hcall, base string, dist map[str
 		switch k := g.Intn(20); {
 		case k < 8:
 			if c, ok := h.randIns(4); ok {
-				h.add(c)
+				h.addIns(c)
 			}
 		case k == 8:
 			n := g.Intn(12)
@@ -901,7 +925,7 @@ func genHistory(g *vf.Rng, o histOpts) (calls []hcall, base string, dist map[str
 			h.calls = append(h.calls, hcall{Op: "label", S: names[g.Intn(len(names))]})
 		default:
 			if c, ok := h.randIns(4); ok {
-				h.add(c)
+				h.addIns(c)
 			}
 		}
 	}
